@@ -295,6 +295,7 @@ inductive Level where
 
 /-- log sites on the authentication path (names are the message literals in `ops/signature.rs`, `ops/mod.rs`) -/
 inductive Site where
+  | prepareErr           -- ops/mod.rs        #[instrument(level = "debug", skip_all, err)] on `prepare`: an ERROR event `error=<err>`
   | failedToPrepare      -- ops/mod.rs        debug!(?err, "failed to prepare")
   | signatureMismatch    -- ops/signature.rs  debug!(?signature, expected=?expected_signature, "signature mismatch")
   | v2StringToSign       -- ops/signature.rs  debug!(?string_to_sign, "sig_v2 header_auth")
@@ -315,8 +316,10 @@ inductive Code where
 
 structure AuthReq where
   scheme : Scheme
-  /-- `some (code, message)`: the request is rejected before the secret is fetched (malformed, expired, …) -/
+  /-- `some (code, message)`: the request is rejected before the secret is fetched (malformed, expired, anonymous, …) -/
   pre : Option (Bytes × Bytes)
+  /-- that rejection happens inside `v2_check`/`v4_check` (then `check` still logs "checked signature") -/
+  preInsideCheck : Bool
   accessKey : Bytes
   date : Bytes
   region : Bytes
@@ -358,24 +361,41 @@ def computeSig (c : Crypto) (secret : Bytes) (r : AuthReq) : Bytes :=
 
 def notSignedUpMsg : Bytes := sb "Your account is not signed up"
 
-/-- the signature check with everything it emits.
+/-- fields of the `signature mismatch` record.  VARIANT SWITCH `logsComputedSig`: `true` is the code as it stands
+    (`debug!(?signature, expected=?expected_signature, …)` — `signature` is the MAC the server computed, `expected`
+    what the client sent); `false` is the repaired form that records only what the client sent.  The driver
+    detects which one the implementation exhibits. -/
+def mismatchFields (logsComputedSig : Bool) (computed provided : Bytes) : List (Field × Bytes) :=
+  if logsComputedSig then [(.signature, computed), (.expected, provided)] else [(.expected, provided)]
+
+/-- the signature check with everything it emits, in the order observed on the real code (records that carry
+    no field keep only their site; the S3 error code of a record is written as a field only where it varies).
     `lookup` is the secret table (`SimpleAuth`), `body` the extracted `Debug` body of `SecretKey`. -/
-def check (c : Crypto) (body : DebugBody) (lookup : Bytes → Option Bytes) (r : AuthReq) : Verdict × List Emission :=
+def check (c : Crypto) (body : DebugBody) (logsComputedSig : Bool) (lookup : Bytes → Option Bytes) (r : AuthReq) :
+    Verdict × List Emission :=
   match r.pre with
   | some (code, msg) =>
     (.reject (.pre code),
-     [.log .debug .failedToPrepare [(.errCode, code), (.errMessage, msg)], .error (.pre code) msg])
+     (if r.preInsideCheck then [Emission.log .debug .checkedSignature []] else []) ++
+     [.log .error .prepareErr [(.errCode, code), (.errMessage, msg)],
+      .log .debug .failedToPrepare [(.errCode, code), (.errMessage, msg)],
+      .error (.pre code) msg])
   | none =>
     match lookup r.accessKey with
     | none =>
       (.reject .notSignedUp,
-       [.log .debug .failedToPrepare [(.errMessage, notSignedUpMsg)], .error .notSignedUp notSignedUpMsg])
+       [.log .debug .checkedSignature [],
+        .log .error .prepareErr [(.errMessage, notSignedUpMsg)],
+        .log .debug .failedToPrepare [(.errMessage, notSignedUpMsg)],
+        .error .notSignedUp notSignedUpMsg])
     | some secret =>
       let signature := computeSig c secret r
       let pre := if r.logsStringToSign then [Emission.log .debug .v2StringToSign [(.stringToSign, r.stringToSign)]] else []
       if signature ≠ r.provided then
         (.reject .signatureDoesNotMatch,
-         pre ++ [.log .debug .signatureMismatch [(.signature, signature), (.expected, r.provided)],
+         pre ++ [.log .debug .signatureMismatch (mismatchFields logsComputedSig signature r.provided),
+                 .log .debug .checkedSignature [],
+                 .log .error .prepareErr [],
                  .log .debug .failedToPrepare [],
                  .error .signatureDoesNotMatch []])
       else
